@@ -2839,6 +2839,9 @@ func (col *DatabaseCollectionWithUser) documentUpdateFunc(
 	// Prune old revision history to limit the number of revisions:
 	if pruned := doc.pruneRevisions(ctx, col.revsLimit(), doc.GetRevTreeID()); pruned > 0 {
 		base.DebugfCtx(ctx, base.KeyCRUD, "updateDoc(%q): Pruned %d old revisions", base.UD(doc.ID), pruned)
+		// Pruning can remove a tombstoned branch entirely: the branched flag computed before pruning may be stale.
+		_, branched, _ := doc.History.winningRevision(ctx)
+		doc.setFlag(channels.Branched, branched)
 	}
 
 	updatedExpiry = doc.updateExpiry(syncExpiry, updatedExpiry, expiry)
